@@ -173,6 +173,8 @@ def gen_continuum(rng, n_annot=None, max_units=4, family=None, labels=None, p_no
     if rng.random() < 0.1:
         # same values, but handed over as numpy scalars (times taken from an array, a cumulative sum, a data frame)
         spec["time_type"] = "np.float64"
+    elif rng.random() < 0.1 and all(float(t).is_integer() for us in ann.values() for u in us for t in u[:2]):
+        spec["time_type"] = "int"
     return spec
 
 
@@ -189,6 +191,9 @@ def build_continuum(spec):
     if spec.get("time_type") == "np.float64":
         import numpy as np
         wrap = np.float64
+    elif spec.get("time_type") == "int":
+        # whole-number times as plain Python ints (frame or sample indices): the same values, another number type
+        wrap = lambda x: int(x) if float(x).is_integer() and abs(x) < 2 ** 53 else float(x)   # noqa: E731
     for a, units in spec["ann"].items():
         c.add_annotator(a)
         for s, e, lab in units:
